@@ -153,11 +153,38 @@ RULE = ('structs and enum variants with 1..3 fields over field types {u8, u16, W
         'documented designation rules accept (explicit marker, else sole field, else unique field of type T) and whose '
         'conversions type-check; two-variant enums with independent designations; oracle: x.into() equals the designated '
         'field (distinct sentinel per field; the method adds 100), and compile-time probes show Into<X> is absent for every '
-        'unrequested X; non-trivial = at least two distinct kinds of evaluation')
+        'unrequested X; requests with no marker and 0 or 2..5 fields of the target type (no unique candidate) must be refused; non-trivial = at least two distinct kinds of evaluation')
+
+
+def reject_cases():
+    """no marker and no unique field of the target type: the designation rule gives no field, the request must be refused"""
+    out = []
+    for n_same in (2, 3, 4, 5):
+        for extra in (0, 1):
+            tys = ['u8'] * n_same + ['u16'] * extra
+            for rot in range(len(tys) if extra else 1):
+                t2 = tys[rot:] + tys[:rot]
+                for kind in ('struct', 'tuple', 'enum-t', 'enum-n'):
+                    if kind == 'struct':
+                        item = 'pub struct Ty { %s }' % ', '.join('f%d: %s' % (i, t) for i, t in enumerate(t2))
+                    elif kind == 'tuple':
+                        item = 'pub struct Ty(%s);' % ', '.join(t2)
+                    elif kind == 'enum-t':
+                        item = 'pub enum Ty { A(u8), B(%s) }' % ', '.join(t2)
+                    else:
+                        item = 'pub enum Ty { A { x: u8 }, B { %s } }' % ', '.join('f%d: %s' % (i, t) for i, t in enumerate(t2))
+                    out.append(Case('C10|reject|%s|%dsame+%d|r%d' % (kind, n_same, extra, rot), '#[derive(Educe)]\n#[educe(Into(u8))]\n%s\n' % item,
+                                    {'kind': kind, 'same_typed_candidates': n_same}, expect='reject', run=False, depth=1))
+    # no candidate at all
+    for kind, item in (('struct', 'pub struct Ty { a: u16, b: u32 }'), ('enum', 'pub enum Ty { A(u8), B(u16, u32) }')):
+        out.append(Case('C10|reject|%s|0same' % kind, '#[derive(Educe)]\n#[educe(Into(u8))]\n%s\n' % item, {'kind': kind, 'same_typed_candidates': 0}, expect='reject', run=False, depth=1))
+    return out
 
 
 def check(v, tier):
     from .common import run_behavioural
     cases = generate(tier)
     run_behavioural(v, cases, 'C10', nontrivial_min=2, min_nontrivial_ratio=0.8)
+    from .common import run_rejects
+    run_rejects(v, reject_cases(), 'C10')
     return v.finish(RULE, {'bounds': {'fields': 3, 'variants': 2, 'markers': 2, 'tier': tier}})
